@@ -43,6 +43,12 @@ def run(tier, seed):
                                                "--settle", str(SETTLE_MS), "--cc", "0", "--keys", "24", "--blocks", "120", "--ttl", "0",
                                                "--end", "leak", "--maximages", "30", "--steps", "14", "--trickle", "230",
                                                "--stallmask", "3", "--stallus", "260000"]))
+    # a store that has been idle for a while (several seconds without a call or anything queued), then a handful of
+    # small writes: the bound holds however long nothing happened before
+    for i, idle in enumerate([7300, 4200] if tier == "quick" else [7300, 4200, 12500, 2300, 17600]):
+        jobs.append(("idle%d" % idle, ["--seed", str(rng.randrange(1 << 30)), "--cpus", str([2, 8, 3, 16, 5][i % 5]), "--noflush", "1",
+                                       "--settle", str(SETTLE_MS), "--cc", "0", "--keys", "24", "--blocks", "120", "--ttl", "0",
+                                       "--end", "leak", "--maximages", "30", "--steps", "10", "--idlefirst", str(idle)]))
     # a device that runs full in the background: writes that could not be allocated wait in their shard;
     # once deletes have made room they must reach the device without any further call
     for i in range(4 if tier == "quick" else 16):
